@@ -14,7 +14,7 @@ func main() {
 	base := os.Args[2]
 	bad := 0
 	for s := 0; s < n; s++ {
-		for _, p := range append(gen.Profiles, gen.ProfRuntime) {
+		for _, p := range append(gen.Profiles, gen.ProfRuntime, gen.ProfCluster, gen.ProfRegen) {
 			t := gen.NewTree(int64(s), p, gen.Hazards{})
 			dir := fmt.Sprintf("%s/t%d_%s", base, s, p.Name)
 			os.RemoveAll(dir)
